@@ -273,6 +273,32 @@ fn main()
         out.case(&format!("repro | {} | {} {} | {} | {} | {}", repr, ct.nq, ct.nc, shots, seed, ct.ops.join(" ; ")),
             &if verdict.is_empty() { format!("same {}", kind) } else { format!("differs{}", verdict) });
     }
+    // "the library draws randomness only from the generator it is handed": every operation with a random outcome must
+    // DEPEND on that generator - with 12 different seeds and 256 shots the per-shot register cannot come out identical
+    // 12 times (probability < 1e-12 for a fair outcome) unless it is drawn from somewhere else (or from nowhere)
+    {
+        let sens: Vec<(&str, CircuitText)> = vec![
+            ("peek-then-measure", CircuitText { nq: 2, nc: 3, ops: vec!["gate 1 0 H".into(), "peek 0 0 Z".into(), "gate 1 1 X".into(), "measure 1 1 Z".into()] }),
+            ("measure-then-peek", CircuitText { nq: 2, nc: 3, ops: vec!["gate 1 1 X".into(), "measure 1 1 Z".into(), "gate 1 0 H".into(), "peek 0 0 Z".into()] }),
+            ("peek-with-reset", CircuitText { nq: 2, nc: 2, ops: vec!["gate 1 1 X".into(), "reset 1".into(), "gate 1 0 H".into(), "peek 0 0 Z".into(), "gate 1 0 S".into(), "peek 0 1 X".into()] }),
+            ("peekall-then-measureall", CircuitText { nq: 2, nc: 4, ops: vec!["gate 1 0 H".into(), "gate 1 1 H".into(), "peekall 2 0 1 Z".into(), "gate 1 0 H".into(), "gate 1 1 H".into(), "measureall 2 2 3 Z".into()] }),
+            ("measure", CircuitText { nq: 1, nc: 1, ops: vec!["gate 1 0 H".into(), "measure 0 0 Z".into()] }),
+            ("measureall", CircuitText { nq: 2, nc: 2, ops: vec!["gate 1 0 H".into(), "gate 1 1 H".into(), "measureall 2 0 1 Z".into()] }),
+            ("reset-entangled", CircuitText { nq: 2, nc: 2, ops: vec!["gate 1 0 H".into(), "gate 2 0 1 CX".into(), "reset 0".into(), "measure 1 1 Z".into()] }),
+            ("peek-only", CircuitText { nq: 1, nc: 1, ops: vec!["gate 1 0 H".into(), "peek 0 0 Z".into()] }),
+        ];
+        for (name, ct) in sens.iter()
+        {
+            for repr in ["vector", "auto"].iter()
+            {
+                if *name == "reset-entangled" && *repr == "auto" { continue; }   // the stabilizer reset is forced (known finding D4)
+                let regs: Vec<String> = (0..12u64).map(|k| { let r = run_once(ct, 256, 1000 + 7919 * k, repr); r.split(" rng:").next().unwrap_or("").to_string() }).collect();
+                let all_same = regs.iter().all(|r| *r == regs[0]);
+                out.case(&format!("depends-on-seed | {} | {} {} | 256 | 12 seeds | {}", repr, ct.nq, ct.nc, ct.ops.join(" ; ")),
+                    &if all_same { format!("differs a-random-outcome-does-not-depend-on-the-supplied-generator[{}]: identical register for 12 different seeds", name) } else { "same ran".to_string() });
+            }
+        }
+    }
     let n = out.finish();
     eprintln!("c10: {} cases", n);
 }
